@@ -75,7 +75,11 @@ fn rg_path(dir: &Path, rg_idx: usize) -> PathBuf {
 pub fn ensure_sidecar(parquet_path: &Path) -> Option<PathBuf> {
     let dir = sidecar_dir(parquet_path);
     let src_meta = std::fs::metadata(parquet_path).ok()?;
+    #[cfg(feature = "verif-hooks")]
+    crate::verif::yield_point(40); // before the first is_fresh
     if is_fresh(&dir, &src_meta) {
+        #[cfg(feature = "verif-hooks")]
+        crate::verif::yield_point(41); // saw a fresh sidecar: the caller goes on to open rg files
         return Some(dir);
     }
     if mode() != Mode::Build {
@@ -85,7 +89,11 @@ pub fn ensure_sidecar(parquet_path: &Path) -> Option<PathBuf> {
     }
 
     static BUILD_LOCK: std::sync::Mutex<()> = std::sync::Mutex::new(());
+    #[cfg(feature = "verif-hooks")]
+    crate::verif::yield_point(42); // decided to build, before BUILD_LOCK
     let _guard = BUILD_LOCK.lock().ok()?;
+    #[cfg(feature = "verif-hooks")]
+    crate::verif::yield_point(43); // holds BUILD_LOCK, before the second is_fresh
     if is_fresh(&dir, &src_meta) {
         return Some(dir);
     }
@@ -342,7 +350,11 @@ fn build_sidecar(parquet_path: &Path, dir: &Path, src_meta: &std::fs::Metadata) 
     // if the rename still loses, defer to whatever is there — the fresh
     // check on the next call decides.
     let final_dir = sidecar_dir(parquet_path);
+    #[cfg(feature = "verif-hooks")]
+    crate::verif::yield_point(44); // staging complete, before remove_dir_all(final)
     let _ = std::fs::remove_dir_all(&final_dir);
+    #[cfg(feature = "verif-hooks")]
+    crate::verif::yield_point(45); // final removed (as far as this process saw), before rename
     if std::fs::rename(&staging, &final_dir).is_err() {
         let _ = std::fs::remove_dir_all(&staging);
     }
@@ -411,6 +423,8 @@ pub fn read_row_group(
     use arrow::ipc::reader::{read_footer_length, FileDecoder};
 
     let path = rg_path(dir, rg_idx);
+    #[cfg(feature = "verif-hooks")]
+    crate::verif::yield_point(46); // reader: before open(rg_k)
     let file = File::open(&path)?;
     // SAFETY: the sidecar is created atomically by build_sidecar (readers
     // only see it after `.complete` is stamped) and never mutated in place —
